@@ -240,7 +240,7 @@ Proof.
   pose proof (reset_encryption_frame29 c s) as F. destruct (reset_encryption c s) as [s1 i1].
   destruct F as (F1 & F2 & F3 & F4 & F5 & F6).
   unfold start_advertising_impl, handle_start_advertising in H. injection H as <- <-.
-  cbn [st ring deferred set_deferred set_st].
+  cbn [st ring deferred set_deferred set_st set_adv_ch].
   split; [reflexivity|]. split; [|split; [reflexivity|]].
   - rewrite F1. unfold in_connection in Hin.
     destruct (st s) eqn:Es; try discriminate; rewrite ring_push_event, F2, ?F3;
